@@ -237,7 +237,8 @@ def content_scripts(tier, rng, tid0):
             ops += [{"o": "retrieve", "w": 0, "m": m} for m in rng.sample(range(k + 2), rng.randint(1, k + 1))]
         ops.append({"o": "mark", "w": 0, "h": 0})
         ops.append({"o": "save", "w": 0, "rec": False, "fmt": "json"})
-        scripts.append({"tid": tid, "marker": "simple", "worlds": 1, "ops": ops})
+        # (UuidMarker: the ids are drawn at random, the old ones come back through the saved data)
+        scripts.append({"tid": tid, "marker": "uuid" if gi % 6 == 3 else "simple", "worlds": 1, "ops": ops})
         tid += 1
     return scripts
 
